@@ -167,6 +167,7 @@ def oracle(case, rec):
         if n[4] is not None:
             by_id.setdefault(n[4], n)
     # (b) identifiers unique within each file
+    deferred = None
     for name in sorted(files):
         f = files[name]
         allids = f['ids'] + f['names']
@@ -174,9 +175,11 @@ def oracle(case, rec):
         if dup:
             holders = [n for n, _ in rd.tree_nodes(tree) if n[4] == dup[0]]
             if any(n[5] for n in holders) and any(not n[5] for n in holders):
-                return ('C14:duplicate-id:label-equals-generated-id',
+                # a known finding: reported only when nothing else is wrong with the case, so that it cannot hide another violation
+                deferred = deferred or ('C14:duplicate-id:label-equals-generated-id',
                         'the identifier %r occurs %d times in %s: it is the label of the %s and the identifier generated for the %s' % (
                             dup[0], allids.count(dup[0]), name, next(n[8] for n in holders if not n[5]), next(n[8] for n in holders if n[5])))
+                continue
             return ('C14:duplicate-id', 'the identifier %r occurs %d times in %s' % (dup[0], allids.count(dup[0]), name))
     # (a) every link names a produced file and an identifier in it
     graph = {}
@@ -228,7 +231,7 @@ def oracle(case, rec):
                     todo.append(y)
         if seen != set(files):
             return ('C14:unreachable-file', 'following links from %s does not reach %s' % (start, sorted(set(files) - seen)))
-    return None
+    return deferred
 
 
 def judge(case, io, mo):
